@@ -187,3 +187,29 @@ func init() {
 		}
 	})
 }
+
+// CometBFT header hash (reflection-based amino-style encoding + Merkle tree):
+// modelled as SHA-256 over an injective serialisation of the header struct.
+func init() {
+	moreRegs = append(moreRegs, func(eng *Engine) {
+		in := eng.intrinsics
+		in["(*github.com/cometbft/cometbft/types.Header).Hash"] = func(w *Worker, fr *frame, f *ssa.Function, args []value) value {
+			p, _ := args[0].(*value)
+			if p == nil {
+				return []value(nil)
+			}
+			t := deref(f.Signature.Recv().Type())
+			st := t.Underlying().(*types.Struct)
+			s := (*p).(structure)
+			for i := 0; i < st.NumFields(); i++ {
+				if st.Field(i).Name() == "ValidatorsHash" {
+					if b, _ := s[i].([]value); len(b) == 0 {
+						return []value(nil)
+					}
+				}
+			}
+			data := w.serialize(t, *p, []value{uint64('H'), uint64('d'), uint64('r')}, 0)
+			return w.hashBytes("sha256", data)
+		}
+	})
+}
